@@ -1,0 +1,57 @@
+//go:build verif
+
+// Verification hooks: exported wrappers around unexported functions.
+// Compiled only with `-tags verif`; add-only, no existing line is changed.
+package extendeddaemonsetreplicaset
+
+import (
+	"github.com/go-logr/logr"
+	corev1 "k8s.io/api/core/v1"
+	"k8s.io/apimachinery/pkg/runtime"
+	"k8s.io/client-go/util/flowcontrol"
+	generator "k8s.io/kube-state-metrics/v2/pkg/metric_generator"
+	"sigs.k8s.io/controller-runtime/pkg/client"
+
+	datadoghqv1alpha1 "github.com/DataDog/extendeddaemonset/api/v1alpha1"
+	"github.com/DataDog/extendeddaemonset/controllers/extendeddaemonsetreplicaset/strategy"
+)
+
+// VerifRetrieveReplicaSetStatus exposes retrieveReplicaSetStatus.
+func VerifRetrieveReplicaSetStatus(daemonset *datadoghqv1alpha1.ExtendedDaemonSet, replicassetName string) strategy.ReplicaSetStatus {
+	return retrieveReplicaSetStatus(daemonset, replicassetName)
+}
+
+// VerifCreatePods exposes createPods.
+func VerifCreatePods(logger logr.Logger, c client.Client, scheme *runtime.Scheme, podAffinitySupported bool, replicaset *datadoghqv1alpha1.ExtendedDaemonSetReplicaSet, podsToCreate []*strategy.NodeItem) []error {
+	return createPods(logger, c, scheme, podAffinitySupported, replicaset, podsToCreate)
+}
+
+// VerifDeletePods exposes deletePods.
+func VerifDeletePods(logger logr.Logger, c client.Client, podByNodeName map[*strategy.NodeItem]*corev1.Pod, nodes []*strategy.NodeItem) []error {
+	return deletePods(logger, c, podByNodeName, nodes)
+}
+
+// VerifBuildStrategyParams exposes (*Reconciler).buildStrategyParams.
+func (r *Reconciler) VerifBuildStrategyParams(logger logr.Logger, daemonset *datadoghqv1alpha1.ExtendedDaemonSet, replicaset *datadoghqv1alpha1.ExtendedDaemonSetReplicaSet) (*strategy.Parameters, error) {
+	return r.buildStrategyParams(logger, daemonset, replicaset)
+}
+
+// VerifGetNodeList exposes (*Reconciler).getNodeList.
+func (r *Reconciler) VerifGetNodeList(eds *datadoghqv1alpha1.ExtendedDaemonSet, replicaset *datadoghqv1alpha1.ExtendedDaemonSetReplicaSet) (*strategy.NodeList, error) {
+	return r.getNodeList(eds, replicaset)
+}
+
+// VerifBackoff gives access to the in-memory failed-pod back-off (to seed or inspect it).
+func (r *Reconciler) VerifBackoff() *flowcontrol.Backoff {
+	return r.failedPodsBackOff
+}
+
+// VerifBackoffKey exposes getBackOffKey.
+func VerifBackoffKey(replicaset *datadoghqv1alpha1.ExtendedDaemonSetReplicaSet, nodeName string) string {
+	return getBackOffKey(replicaset, nodeName)
+}
+
+// VerifGenerateMetricFamilies exposes generateMetricFamilies.
+func VerifGenerateMetricFamilies() []generator.FamilyGenerator {
+	return generateMetricFamilies()
+}
